@@ -10,14 +10,20 @@ package main
 // logic: comparisons here are dumb before/after equalities of deep dumps.
 
 import (
+	"encoding/json"
 	"fmt"
+	"os"
+	"runtime/debug"
 	"sort"
 	"strings"
 
 	"github.com/zerx-lab/wordZero/pkg/document"
 )
 
-func init() { register("engine", runEngine) }
+func init() {
+	register("engine", runEngine)
+	register("enginechild", runEngineChild)
+}
 
 // engRes is the projection of one render call.
 type engRes struct {
@@ -351,7 +357,32 @@ func (c *engCtx) config(op Op) {
 	}
 }
 
-func runEngine(c Case, emit Emitter) {
+// runEngineChild executes behaviours for the parent executor: every event is written at once to
+// the inherited pipe (fd 3) and each behaviour ends with an "end" line, so that the parent knows
+// how far the child got if a behaviour kills the process (stack overflow, runaway allocation).
+func runEngineChild(c Case, _ Emitter) {
+	if engPipe == nil {
+		debug.SetMaxStack(64 << 20) // a runaway recursion should die quickly, not after a gigabyte
+		engPipe = os.NewFile(3, "events")
+		engPipeEnc = json.NewEncoder(engPipe)
+		engPipeEnc.SetEscapeHTML(false)
+	}
+	out := func(e Ev) {
+		if err := engPipeEnc.Encode(e); err != nil {
+			fmt.Fprintln(os.Stderr, "enginechild: cannot write event:", err)
+			os.Exit(2)
+		}
+	}
+	runEngineInProc(c, out)
+	out(Ev{"ev": "end", "case": c.ID})
+}
+
+var (
+	engPipe    *os.File
+	engPipeEnc *json.Encoder
+)
+
+func runEngineInProc(c Case, emit Emitter) {
 	document.VerifResetGlobals()
 	document.VerifHook = nil
 	ctx := engNewCtx()
